@@ -1,6 +1,7 @@
 (* C12 — formatting an executable document and parsing it back.  Statements only. *)
 From GQL.model Require Import Base Utf8 Lexer Format.
-From GQL.proofs Require Import QuoteRoundtrip.
+From GQL.model Require Import Ast Parser Prog ParseQuery.
+From GQL.proofs Require Import QuoteRoundtrip NumberGrammar TypeRoundtrip.
 
 (* String values survive byte for byte: whatever valid UTF-8 text v a String/BlockString value
    holds, the text Value.String prints for it is read back by the lexer as one String token whose
@@ -23,3 +24,31 @@ Example C12_nonvacuous :
   | _ => False
   end.
 Proof. vm_compute. split; [reflexivity|]. split; [discriminate|reflexivity]. Qed.
+
+(* Types survive: the text Type.String prints for a type (names, list brackets, non-null marks) is
+   parsed back by parseTypeReference as the same type — positions erased — whatever legal token
+   follows it, for every type whose names are names and every deviation setting.
+   ready d s (text ++ rest): the parser stands in front of that text (it may already have looked at its
+   first token); after_type: rest does not continue a name and starts with a proper token other than
+   `!`; the parser ends in front of that token without an error. *)
+Theorem C12_types_survive : forall d F t, type_names_ok t -> forall fuel s txt Q txt',
+  (type_depth t <= fuel)%nat -> ready d s (type_string t ++ txt) -> after_type d txt Q txt' ->
+  erase_type (fst (run d (parseTypeReference fuel) F s)) = erase_type t
+  /\ (exists tn, sees d (snd (run d (parseTypeReference fuel) F s)) tn txt' /\ Q tn)
+  /\ src (snd (run d (parseTypeReference fuel) F s)) = src s.
+Proof. exact type_roundtrip. Qed.
+Print Assumptions C12_types_survive.
+
+(* the printed type alone, from a fresh parser: the same type and no error *)
+Theorem C12_type_alone : forall d t, type_names_ok t ->
+  forall F fuel limit ix, (type_depth t <= fuel)%nat -> limit = 0%N ->
+  erase_type (fst (run d (parseTypeReference fuel) F (pst_init (type_string t) limit ix))) = erase_type t
+  /\ has_err (snd (run d (parseTypeReference fuel) F (pst_init (type_string t) limit ix))) = false.
+Proof. exact type_roundtrip_eof. Qed.
+Print Assumptions C12_type_alone.
+
+Example C12_types_nonvacuous :
+  let t := ListT (ListT (NamedT (b "Int") true pos0) false pos0) true pos0 in
+  type_string t = b "[[Int!]]!" /\ type_names_ok t
+  /\ erase_type (fst (run dev_none (parseTypeReference 8) 8 (pst_init (b "[[Int!]]!") 0 0))) = t.
+Proof. split; [reflexivity|]. split; [exists 73%N, (b "nt"); repeat split|vm_compute; reflexivity]. Qed.
